@@ -14,7 +14,7 @@ use std::collections::{BTreeSet, HashMap};
 pub const DEF: PropDef = PropDef {
     id: "C13",
     level: "exploration",
-    rule: "documents = one abstract line list (filler line i: <http://e/s{i}> <http://e/p{i%3}> (<http://e/o{i%7}> | \"v{i%5}\") .) of n lines, n in {0,1,2} ∪ {998..1002} ∪ {1998..2002} ∪ {3001} (loader chunk size 1000; thorough adds 2998..3002, 4001 and 8190..8194 for RDF/XML whose batch size is 8192 triples), with ONE distinguished line of each kind {none, @prefix used only by later lines, term first seen 3 lines earlier (previous chunk), duplicate of the triple 3 lines earlier, lang-tagged literal, datatyped literal, literal with escapes, quoted triples (literal inside, nested), comment, blank line, IRI containing #, blank-node subject} placed at EVERY line index b-2..b+2 around EVERY chunk boundary b in {1000,2000,3000,..} inside the document (every index for n<=2); each abstract document rendered to N-Triples, N-Quads, N-Quads with a graph column, Turtle, N3, RDF/XML (a format takes part iff every line is expressible in the subset its loader supports) x prior content {empty, one triple sharing no term, one triple sharing predicate+object, the document's first triple, non-empty dictionary without triples} x rayon pool size {1,2,4,16} (ThreadPool::install around the loader). Oracle per case: (a) lexical quads (decode_any over all_quads) and named graphs after the load = prior ∪ quads the reference reader finds in the text; (b) dictionary still a bijection, next_id above every id, prior ids unchanged; (c) every format whose load satisfied (a) has the same quads as N-Triples. non-trivial = the document has >= 2 triples and (spans > 1 chunk or prior dictionary non-empty or has a distinguished line); distinct = distinct (n, kind, position, prior, pool, format). Interleavings INSIDE the rayon pool are not enumerable (work stealing is not interceptable); pool sizes are. By reading: parse_ntriples chunk tasks are pure functions of their lines (they only call &self tokenisers) and their results are encoded sequentially by encode_triples; parse_n3 chunk tasks each own a private SparqlDatabase and are merged sequentially; parse_turtle and parse_nquads_and_add do not use rayon at all; parse_rdf batches 8192 triples to crossbeam threads after encoding them sequentially.",
+    rule: "documents = one abstract line list (filler line i: <http://e/s{i}> <http://e/p{i%3}> (<http://e/o{i%7}> | \"v{i%5}\") .) of n lines, n in {0,1,2} ∪ {998..1003} ∪ {1998..2002} ∪ {3001} (loader chunk size 1000, read from parse_ntriples/parse_n3; thorough adds 2003, 2998..3003, 4001, and 8190..8194 for RDF/XML whose batch size is 8192 triples), with ONE distinguished line of each kind {none, @prefix used only by later lines, term first seen 3 lines earlier (= previous chunk at offsets 0..+2), duplicate of the triple 3 lines earlier, lang-tagged literal, datatyped literal, literal with escapes, quoted triples (literal inside; nested), comment, blank line, IRI containing #, blank-node subject} placed at EVERY line index b-2..b+2 around EVERY chunk boundary b in {1000,2000,3000,..} that exists in the document (every index for n<=2); each abstract document is rendered to N-Triples, N-Quads, N-Quads with a graph column, Turtle, N3, RDF/XML (a format takes part iff every line is expressible in the subset its loader supports; skips are counted) x prior content {empty, one triple sharing no term, one triple sharing predicate+object, the document's first triple, non-empty dictionary without triples} x rayon pool size {1,2,4,16} (ThreadPool::install around the loader). QUICK tier reductions (thorough runs the full product, except pool sizes {2,16} instead of all four for the loaders that never touch the installed pool on documents of more than 1003 lines): documents up to the first boundary (n <= 1003) run all kinds, all five priors, all four pool sizes for the two loaders that run rayon tasks on the installed pool (parse_ntriples, parse_n3) and one pool size for the others (parse_turtle and parse_nquads_and_add are sequential, parse_rdf uses its own threads); documents beyond it (n >= 1998) keep every offset of every boundary with the chunk-sensitive kinds {@prefix, earlier term, duplicate} (+ {comment, blank line} at later boundaries), priors {empty, first triple}, pool sizes {1,4}. Oracle per load: (a) lexical quads (decode_any over all_quads) and named graphs after the load = prior ∪ quads the reference reader finds in the text; (b) dictionary still a bijection, next_id above every id, prior ids unchanged; (c) every load that satisfied (a) shows the same quads as the N-Triples load of the same abstract list. non-trivial = the document has >= 2 triples and (spans > 1 chunk or prior dictionary non-empty or has a distinguished line); distinct = distinct (n, kind, position, prior, pool, format). Interleavings INSIDE the rayon pool are not enumerable (work stealing is not interceptable); pool sizes are. Verified by reading: parse_ntriples chunk tasks are pure functions of their lines (they only call the &self tokenisers parse_ntriples_parts/clean_ntriples_term, no dictionary access), collect() keeps chunk order and encode_triples encodes sequentially; parse_n3 chunk tasks each own a private SparqlDatabase and are merged sequentially (by id - the defect found); parse_turtle and parse_nquads_and_add never use rayon; parse_rdf encodes sequentially while reading and only ships batches of 8192 encoded triples to crossbeam threads whose results are inserted sequentially.",
     assumptions: &[
         "reference model: harness/src/reference/loader.rs (generator + independent reader, self-tested on hand-written documents); expected quads are computed from the rendered TEXT by the reference reader and cross-checked against the abstract list",
         "lexical forms: IRI bare, blank node _:label, plain literal = decoded value, \"v\"^^<dt> -> v, \"v\"@en -> v@en (the forms N-Triples/N-Quads loaders implement); N3 is checked against the literal token form parse_n3 documents (quotes, raw escapes, @lang, ^^datatype) and the resulting difference to all other formats is reported by the cross-format clause",
@@ -220,12 +220,13 @@ pub fn positions(n: usize) -> Vec<usize> {
 
 pub fn sizes(thorough: bool) -> Vec<usize> {
     let mut v: Vec<usize> = vec![0, 1, 2];
-    v.extend(998..=1002);
+    v.extend(998..=1003);
     v.extend(1998..=2002);
     v.push(3001);
     if thorough {
+        v.push(2003);
         v.extend(2998..=3000);
-        v.push(3002);
+        v.extend(3002..=3003);
         v.push(4001);
     }
     v.sort();
@@ -243,7 +244,7 @@ pub fn documents(thorough: bool) -> Vec<(usize, Kind, Option<usize>)> {
                 if *k == Kind::Duplicate && p == 0 {
                     continue; // nothing earlier to duplicate: identical to the plain document
                 }
-                if !thorough && n > CHUNK + 2 && !quick_kind_for_large(*k, p) {
+                if !thorough && n > CHUNK + 3 && !quick_kind_for_large(*k, p) {
                     continue;
                 }
                 v.push((n, *k, Some(p)));
@@ -543,17 +544,20 @@ fn nontrivial_case(n: usize, kind: Kind, prior: Prior, doc_quads: &BTreeSet<LexQ
     doc_quads.len() >= 2 && (n > CHUNK || prior != Prior::Empty || kind != Kind::None)
 }
 
-/// which pool sizes a loader is run under. Thorough: all four for every loader. Quick: all four for the
+/// which pool sizes a loader is run under. Thorough: all four (two for the sequential loaders beyond the first boundary). Quick: all four for the
 /// two loaders that run rayon tasks on the installed pool (parse_ntriples, parse_n3) up to the first chunk
 /// boundary and {1,4} beyond it; one size for the loaders that (by reading) never touch the installed pool
 /// (parse_turtle, parse_nquads_and_add: sequential; parse_rdf: own threads + global pool).
 fn pool_sizes_for(thorough: bool, n: usize, loader: Loader) -> Vec<usize> {
+    let uses_installed_pool = matches!(loader, Loader::Fmt(Format::NTriples) | Loader::Fmt(Format::N3));
     if thorough {
-        return POOLS.to_vec();
+        // full product, except that the loaders which never touch the installed pool get two of the four
+        // sizes on the multi-chunk documents
+        return if uses_installed_pool || n <= CHUNK + 3 { POOLS.to_vec() } else { vec![2, 16] };
     }
     match loader {
         Loader::Fmt(Format::NTriples) | Loader::Fmt(Format::N3) => {
-            if n <= CHUNK + 2 {
+            if n <= CHUNK + 3 {
                 POOLS.to_vec()
             } else {
                 vec![1, 4]
@@ -565,7 +569,7 @@ fn pool_sizes_for(thorough: bool, n: usize, loader: Loader) -> Vec<usize> {
 
 /// prior contents: all five up to the first chunk boundary (and everywhere in thorough); two beyond it in quick
 fn priors_for(thorough: bool, n: usize) -> Vec<Prior> {
-    if thorough || n <= CHUNK + 2 {
+    if thorough || n <= CHUNK + 3 {
         PRIORS.to_vec()
     } else {
         vec![Prior::Empty, Prior::SameTriple]
